@@ -542,3 +542,118 @@ class Runner(object):
         events.append(end)
         self.count += 1
         return events
+
+
+# --------------------------------------------------------------------------------------------------------
+# C40: run with a suspend/resume cycle at statement boundary k
+
+def _outnums(raw):
+    raw = _MSG_RE.sub(b'', raw)
+    raw = re.sub(br'Break(?: in \d+)?', b'', raw)
+    return [int(x) for x in re.findall(br'-?\d+', raw)]
+
+
+def run_suspended(text, pi, varnames, k, statefile, mount, budget=600, alter=None):
+    """Load `text` in a fresh session, RUN, suspend at boundary k (QUIT signal injected by hook H1), resume from the
+    state file in a new Session object and let it finish.  Returns (events, reached) where reached=False if the
+    program ended before boundary k."""
+    import io
+    from . import core
+    core.import_repo()
+    from pcbasic.basic import Session
+    from pcbasic.basic.base import signals, error
+    out = io.BytesIO()
+    s = Session(devices={b'C': mount}, current_device=b'C', output_streams=out, input_streams=None)
+    try:
+        for ln in text:
+            s.execute(ln)
+        events = [{'a': 'run', 'pi': pi}]
+        st = {'n': 0, 'mark': len(out.getvalue()), 'cut': False}
+
+        def mk_hook(sess, stream, phase):
+            prog = sess._impl.program
+
+            def getvars():
+                vs = []
+                for nm in varnames:
+                    v = sess.get_variable(nm if nm[-1] in '%!#' else nm + '!')
+                    if isinstance(v, float):
+                        v = int(v) if v == int(v) and abs(v) < 2 ** 30 else 999999999
+                    vs.append(v)
+                return vs
+
+            def hook(it):
+                if not it.run_mode:
+                    return
+                st['n'] += 1
+                if st['n'] > budget:
+                    st['cut'] = True
+                    raise error.Break()
+                if phase == 1 and st['n'] == k:
+                    st['n'] -= 1          # this boundary is logged again (once) after the resume
+                    sess._impl.queues.inputs.put(signals.Event(signals.QUIT))
+                    return
+                raw = stream.getvalue()
+                delta = raw[st['mark']:]
+                st['mark'] = len(raw)
+                pos = it.get_codestream().tell()
+                events.append({'a': 'b', 'line': prog.get_line_number(pos), 'vars': getvars(), 'out': _outnums(delta), 'occ': []})
+            return hook, getvars
+        hook, getvars = mk_hook(s, out, 1)
+        s._impl.interpreter.verif_hook = hook
+        reached = True
+        try:
+            s.execute('RUN')
+            reached = False
+            fin, stream = s, out
+        except error.Exit:
+            s.suspend(statefile)
+            if alter:
+                alter(statefile)
+            s2 = Session.resume(statefile)
+            events.append({'a': 'sr'})
+            stream = s2._impl.io_streams._output_streams[0]
+            hook2, getvars = mk_hook(s2, stream, 2)
+            s2._impl.interpreter.verif_hook = hook2
+            s2.press_keys(u'SYSTEM\r')
+            try:
+                s2.interact()
+            except error.Exit:
+                pass
+            fin = s2
+        raw = stream.getvalue()
+        delta = raw[st['mark']:]
+        delta = delta.split(b'Ok\xff')[0]
+        end = {'a': 'end', 'vars': getvars(), 'out': _outnums(delta), 'code': 0, 'line': 0}
+        from .session import find_errors
+        errs = find_errors(delta)
+        m = re.search(br'Break(?: in (\d+))?', delta)
+        if st['cut']:
+            end['k'] = 'cut'
+        elif errs:
+            end['k'] = 'error'
+            end['code'] = errs[-1][0]
+            end['line'] = errs[-1][1] if errs[-1][1] is not None else -2
+            if end['code'] == 21:
+                try:
+                    end['code'] = int(fin.evaluate('ERR'))
+                except Exception:
+                    pass
+        elif m:
+            end['k'] = 'break'
+            end['line'] = int(m.group(1)) if m.group(1) else -2
+        else:
+            end['k'] = 'end'
+        end['raw'] = delta[-200:].decode('latin1')
+        events.append(end)
+        return events, reached
+    finally:
+        try:
+            s.close()
+        except Exception:
+            pass
+        if 's2' in locals():
+            try:
+                s2.close()
+            except Exception:
+                pass
